@@ -46,9 +46,12 @@ def reeval_rules(eng: Engine, ck: Check, rule: str, constructs: Optional[set] = 
     ob(ms, ms.node, 'every upload except COMPLETE and FAILED ones is re-evaluated', skipped == {'COMPLETE', 'FAILED'} and
           'is_upload()' in src, f'skipped states: {sorted(skipped)}', construct='reeval population')
     conds = None
-    for n in walk_local(ev.node):
-        if isinstance(n, ast.Assign) and isinstance(n.value, ast.Tuple) and all(isinstance(x, ast.Tuple) and len(x.elts) == 2 for x in n.value.elts):
-            conds = [(unparse(x.elts[0]), enum_member(x.elts[1])) for x in n.value.elts]
+    # the (condition, reason) pairs IN THE ORDER THE LOOP VISITS THEM: the loop's iterable is evaluated as a sequence (a table listed in
+    # another order and re-ordered at the loop -- `(requested, *transient)` -- is judged by what the loop does, not by the listing)
+    for lp_ in [n for n in walk_local(ev.node) if isinstance(n, ast.For) and isinstance(n.target, ast.Tuple) and len(n.target.elts) == 2]:
+        seq = eval_sequence(ev, lp_.iter)
+        if seq and all(isinstance(x, ast.Tuple) and len(x.elts) == 2 and enum_member(x.elts[1]) for x in seq):
+            conds = [(unparse(x.elts[0]), enum_member(x.elts[1])) for x in seq]
     ob(ev, ev.node, 'abort reasons are evaluated in the order REQUESTED > BLOCKED > FILE_NOT_SHARED, first hit wins',
           conds is not None and [c[1] for c in conds] == ['REQUESTED', 'BLOCKED', 'FILE_NOT_SHARED'] and
           any(isinstance(x, ast.Break) for x in walk_local(ev.node)), f'{conds}', construct='reason order')
